@@ -29,6 +29,9 @@ CONSTANTS BadFrames,     \* BOOLEAN: the client may send a wrong frame instead o
           WellBehaved,   \* BOOLEAN: UPGRADE is sent only while no GET is outstanding
           Deviation      \* "none" | "NoNoop" (no put(NOOP) after the probe)
                          \*        | "PollIgnoresFlags" (GET reads the queue whatever the flags)
+                         \*        | "GateReadsSwapped" (the gate reads upgraded before upgrading)
+                         \*        | "FlagWritesSwapped" (at the end upgrading = False is written
+                         \*          before upgraded = True)
 
 VARIABLES upgrading, upgraded,   \* Socket flags
           wsin,       \* frames from the client the upgrader has not read yet
@@ -49,20 +52,43 @@ UpInit == Init /\ upgrading = FALSE /\ upgraded = FALSE /\ wsin = <<>> /\ wsout 
           /\ wsdeliv = <<>> /\ read = <<>> /\ stage = 0 /\ gone = FALSE
 
 (* ---- GET ---- *)
-\* _get_socket, then handle_get_request: upgrading or upgraded -> [NOOP] (the response leaves:
-\* the task returns); else the call of queue.get()
+\* Every READ of one of the two flags by a request is a step of its own as well ("flagread" in
+\* the logs).  A GET reads, in this order: `upgraded` (server.transport(sid): an upgraded
+\* session refuses polling requests, 400), `upgrading`, `upgraded` (handle_get_request: either
+\* one set -> [NOOP], the queue is not touched); only then Socket.poll() is called.
+B(x) == IF x THEN "T" ELSE "F"
+\* _get_socket, then the read of `upgraded` in transport(sid)
 PollEnterUp(p) ==
     /\ kind[p] = "poll" /\ pc[p] = "begin"
-    /\ IF Refused THEN ReapOnLookup /\ Ret(p, "400") /\ UNCHANGED deliv
-       ELSE IF (upgrading \/ upgraded) /\ Deviation # "PollIgnoresFlags"
-       THEN deliv' = Append(deliv, "NOOP") /\ Ret(p, "200") /\ UNCHANGED intable
-       ELSE Goto(p, "wait") /\ UNCHANGED <<intable, deliv>>
-    /\ UNCHANGED <<q, unf, closing, closed, ev, sent, kind, pk, it, aux>>
+    /\ IF Refused THEN ReapOnLookup /\ Ret(p, "400") /\ UNCHANGED it
+       ELSE it' = [it EXCEPT ![p] = B(upgraded)] /\ Goto(p, "g1") /\ UNCHANGED intable
+    /\ UNCHANGED <<q, unf, closing, closed, ev, deliv, sent, kind, pk, aux>>
+\* upgraded: "Invalid transport", 400 [ret]; else the read of `upgrading`
+PollGate1(p) ==
+    /\ kind[p] = "poll" /\ pc[p] = "g1"
+    /\ IF it[p] = "T" THEN Ret(p, "400") /\ UNCHANGED it
+       ELSE IF Deviation = "PollIgnoresFlags" THEN Goto(p, "wait") /\ UNCHANGED it
+       ELSE it' = [it EXCEPT ![p] = B(IF Deviation = "GateReadsSwapped" THEN upgraded ELSE upgrading)]
+            /\ Goto(p, "g2")
+    /\ UNCHANGED <<q, unf, closing, closed, intable, ev, deliv, sent, kind, pk, aux>>
+\* upgrading: [NOOP] [ret]; else the second read of `upgraded`
+PollGate2(p) ==
+    /\ kind[p] = "poll" /\ pc[p] = "g2"
+    /\ IF it[p] = "T" THEN deliv' = Append(deliv, "NOOP") /\ Ret(p, "200") /\ UNCHANGED it
+       ELSE it' = [it EXCEPT ![p] = B(IF Deviation = "GateReadsSwapped" THEN upgrading ELSE upgraded)]
+            /\ Goto(p, "g3") /\ UNCHANGED deliv
+    /\ UNCHANGED <<q, unf, closing, closed, intable, ev, sent, kind, pk, aux>>
+\* upgraded: [NOOP] [ret]; else Socket.poll(): the call of queue.get()  [get_enter]
+PollGate3(p) ==
+    /\ kind[p] = "poll" /\ pc[p] = "g3"
+    /\ IF it[p] = "T" THEN deliv' = Append(deliv, "NOOP") /\ Ret(p, "200")
+       ELSE Goto(p, "wait") /\ UNCHANGED deliv
+    /\ UNCHANGED <<q, unf, closing, closed, intable, ev, sent, kind, pk, it, aux>>
 
 ShortStep(p) ==
     /\ p \in Others
     /\ \/ DoPut(p) \/ SendBegin(p) \/ SendEnd(p)
-       \/ PollEnterUp(p) \/ PollGet(p) \/ PollTd1(p) \/ PollRespond(p) \/ PollMore(p)
+       \/ PollEnterUp(p) \/ PollGate1(p) \/ PollGate2(p) \/ PollGate3(p) \/ PollGet(p) \/ PollTd1(p) \/ PollRespond(p) \/ PollMore(p)
        \/ PollTd2(p) \/ PollReput(p)
     /\ UpUnch
 UpStart(p, k) == p \in Others /\ k \in {"poll", "send"} /\ Start(p, k) /\ UpUnch
@@ -77,12 +103,18 @@ StartUpgrade ==
 \* harness turns the two attributes into logging descriptors), so that the ORDER of the writes
 \* is part of the specification: a GET may run between any two of them.
 \* _get_socket; _upgrade_websocket -> _websocket_handler: `self.upgrading = True`  [flag]
+\* (before it the request reads `upgraded` twice: transport(sid) in handle_request and the
+\*  "upgraded already" test of _upgrade_websocket  [flagread] x 2; one upgrade request only,
+\*  so both read FALSE)
 UBegin ==
     /\ kind[U] = "upg" /\ pc[U] = "begin"
-    /\ IF Refused THEN ReapOnLookup /\ Ret(U, "400") /\ UNCHANGED upgrading
-       ELSE upgrading' = TRUE /\ Goto(U, "u_b1") /\ UNCHANGED intable
-    /\ UNCHANGED <<q, unf, closing, closed, ev, deliv, sent, kind, pk, it, aux>>
-    /\ UNCHANGED <<upgraded, wsin, wsout, wsdeliv, read, stage, gone>>
+    /\ IF Refused THEN ReapOnLookup /\ Ret(U, "400")
+       ELSE ~upgraded /\ Goto(U, "u_r1") /\ UNCHANGED intable
+    /\ UNCHANGED <<q, unf, closing, closed, ev, deliv, sent, kind, pk, it, aux>> /\ UpUnch
+URead2 ==
+    /\ pc[U] = "u_r1" /\ ~upgraded
+    /\ Goto(U, "u_r2")
+    /\ UNCHANGED <<q, unf, closing, closed, intable, ev, deliv, sent, kind, pk, it, aux>> /\ UpUnch
 \* the call of wait()  [ws_wait_enter]
 UCallWait(lfrom, lto) ==
     /\ pc[U] = lfrom
@@ -125,17 +157,22 @@ URet ==
 \* started and the reader loop calls wait() [ws_wait_enter]; anything else: `self.upgraded =
 \* False` [flag], `self.upgrading = False` [flag], return, the finally [flag], [ret]
 UAfter2 ==
-    IF it[U] = "UPGRADE" THEN USet("u_got2", "u_f2", upgrading, TRUE)
+    IF it[U] = "UPGRADE"
+    THEN IF Deviation = "FlagWritesSwapped" THEN USet("u_got2", "u_f2", FALSE, upgraded)
+         ELSE USet("u_got2", "u_f2", upgrading, TRUE)
     ELSE USet("u_got2", "u_x1", upgrading, FALSE)
+ULast ==
+    IF Deviation = "FlagWritesSwapped" THEN USet("u_f2", "u_f3", upgrading, TRUE)
+    ELSE USet("u_f2", "u_f3", FALSE, upgraded)
 UStartWriter ==
     /\ pc[U] = "u_f3"
     /\ kind' = [kind EXCEPT ![Wt] = "writer"]
     /\ pc' = [pc EXCEPT ![U] = "r_wait", ![Wt] = "w_top"]
     /\ UNCHANGED <<q, unf, closing, closed, intable, ev, deliv, sent, pk, it, resp, aux>> /\ UpUnch
 UpgraderStep ==
-    \/ UBegin \/ UCallWait("u_b1", "u_wait1") \/ UFrame("u_wait1", "u_got1") \/ UAfter1
+    \/ UBegin \/ URead2 \/ USet("u_r2", "u_b1", TRUE, upgraded) \/ UCallWait("u_b1", "u_wait1") \/ UFrame("u_wait1", "u_got1") \/ UAfter1
     \/ (DoPut(U) /\ UpUnch) \/ UCallWait("u_w2", "u_wait2") \/ UFrame("u_wait2", "u_got2")
-    \/ UAfter2 \/ USet("u_f2", "u_f3", FALSE, upgraded) \/ UStartWriter
+    \/ UAfter2 \/ ULast \/ UStartWriter
     \/ USet("u_x1", "u_fin", FALSE, upgraded) \/ USet("u_fin", "u_ret", FALSE, upgraded) \/ URet
 
 (* ---- writer: poll() in a loop, frames out ---- *)
